@@ -502,6 +502,11 @@ func (t *State) PlayAndRepost(blockid []byte, needRepost bool, isRootTx bool) (e
 	}
 	verifhook.Yield("play.afterUnconfirm")
 
+	if orderErr := t.checkPoolTxsInBlockOrder(block, unconfirmToConfirm); orderErr != nil {
+		t.log.Warn("block confirms a pending tx out of order", "err", orderErr)
+		return orderErr
+	}
+
 	// parallel verify
 	verifyErr := t.verifyBlockTxs(block, isRootTx, unconfirmToConfirm)
 	if verifyErr != nil {
@@ -558,6 +563,51 @@ func (t *State) PlayAndRepost(blockid []byte, needRepost bool, isRootTx bool) (e
 
 	t.log.Debug("paly and repost succ", "blockId", utils.F(block.Blockid))
 
+	return nil
+}
+
+// checkPoolTxsInBlockOrder: the block has to be valid in ITS order on the confirmed state, but it is judged on a
+// state that already holds this node's pending transactions, and a block transaction that sits in the pool is taken
+// over without another verification (it was verified on the state it was submitted on). So: what a block
+// transaction consumes must be confirmed or made by an earlier transaction of the block - not by a transaction that
+// is merely pending here -, and no earlier transaction of the block may have superseded a key version that a
+// transaction taken over from the pool read.
+func (t *State) checkPoolTxsInBlockOrder(block *pb.InternalBlock, fromPool map[string]bool) error {
+	earlier := map[string]bool{}   // transactions of the block seen so far
+	written := map[string]string{} // key -> version written by the block so far
+	pendingElsewhere := func(refTxid []byte) bool {
+		if len(refTxid) == 0 || earlier[string(refTxid)] {
+			return false
+		}
+		_, pending := t.tx.UnconfirmTxInMem.Load(string(refTxid))
+		return pending
+	}
+	for _, tx := range block.Transactions {
+		for _, txInput := range tx.TxInputs {
+			if pendingElsewhere(txInput.RefTxid) {
+				return fmt.Errorf("tx %x spends an output of %x, which the block does not confirm before it", tx.Txid, txInput.RefTxid)
+			}
+		}
+		for _, txInputExt := range tx.TxInputsExt {
+			if pendingElsewhere(txInputExt.RefTxid) {
+				return fmt.Errorf("tx %x reads a version written by %x, which the block does not confirm before it", tx.Txid, txInputExt.RefTxid)
+			}
+			if !fromPool[string(tx.Txid)] {
+				continue // verified and executed in block order below
+			}
+			bucketAndKey := string(xmodel.MakeRawKey(txInputExt.Bucket, txInputExt.Key))
+			if version, superseded := written[bucketAndKey]; superseded && version != xmodel.GetVersionOfTxInput(txInputExt) {
+				return fmt.Errorf("tx %x reads %s at a version the block has already superseded", tx.Txid, bucketAndKey)
+			}
+		}
+		earlier[string(tx.Txid)] = true
+		for txOutOffset, txOut := range tx.TxOutputsExt {
+			if txOut.Bucket == xmodel.TransientBucket {
+				continue
+			}
+			written[string(xmodel.MakeRawKey(txOut.Bucket, txOut.Key))] = xmodel.MakeVersion(tx.Txid, int32(txOutOffset))
+		}
+	}
 	return nil
 }
 
